@@ -123,7 +123,7 @@ PROPS = {
         ],
         "signature": lambda req: "roundtrip",
         "rule": "item trees over {list, int (boundary pool + random), bool, registered instruction, parser-producible and odd names} (exact class), the same plus floats incl. non-finite, subnormal and boundary values (print-parse-print class), arbitrary items, and trees emitted by CodeGenerator::random_code: Item::to_string compared with the model's print, the text parsed back by the real parser and by the model, parse(print t) = t resp. print(parse(print t)) = print t evaluated on the implementation's own outcome (its reparse and its own print of the reparse); non-trivial = the item is in one of the two round-trip classes",
-        "assumptions": ["FloatPrintStable (fmt3 (parse (fmt3 x)) = fmt3 x) and the white-space splitting of printed text are character-level facts about std formatting/parsing: hypotheses of the Lean theorem, validated on every generated tree by the correspondence check"],
+        "assumptions": ["white-space splitting of the printed text, and the round trip of every i32 / boolean / registered instruction leaf, are Lean theorems (tok_show, int_roundtrip, instr_leafRT, parse_print_registry); that a single float, vector literal or name prints as one word and classifies back to itself (FloatPrintStable: fmt3 (parse (fmt3 x)) = fmt3 x) is a per-leaf hypothesis about std formatting, validated on every generated tree by the correspondence check"],
     },
     "C09": {
         "scenarios": lambda tier, q: [
